@@ -109,7 +109,20 @@ func (g *gateBucket) NewRangeReaderEtag(ctx context.Context, key string, offset,
 		}
 		g.parked = append(g.parked, c)
 		g.mu.Unlock()
-		mode = <-c.release
+		select {
+		case mode = <-c.release:
+		case <-ctx.Done():
+			// the caller's context was cancelled while the call was parked: a context-aware backend gives up
+			g.mu.Lock()
+			for i, x := range g.parked {
+				if x == c {
+					g.parked = append(g.parked[:i:i], g.parked[i+1:]...)
+					break
+				}
+			}
+			g.mu.Unlock()
+			return nil, "", 499, ctx.Err()
+		}
 	}
 	hold := mode == "okhold"
 	if hold {
@@ -250,6 +263,10 @@ type reqRec struct {
 	status     int
 	body       []byte
 	done       bool
+	ce, ct     string // Content-Encoding / Content-Type of the answer
+	noHdr      bool   // the headers were not recorded (child-process scripts)
+	cancel     context.CancelFunc
+	cancelled  bool
 }
 
 type world struct {
@@ -303,7 +320,8 @@ func (w *world) settle() {
 }
 
 func (w *world) start(path string) {
-	r := &reqRec{id: len(w.reqs), path: path, start: w.opIdx}
+	ctx, cancel := context.WithCancel(context.Background())
+	r := &reqRec{id: len(w.reqs), path: path, start: w.opIdx, cancel: cancel}
 	w.mu.Lock()
 	w.reqs = append(w.reqs, r)
 	w.mu.Unlock()
@@ -318,9 +336,10 @@ func (w *world) start(path string) {
 				w.mu.Unlock()
 			}
 		}()
-		st, _, body := w.srv.Get(context.Background(), path)
+		st, hdrs, body := w.srv.Get(ctx, path)
 		w.mu.Lock()
 		r.status, r.body, r.done = st, body, true
+		r.ce, r.ct = hdrs["Content-Encoding"], hdrs["Content-Type"]
 		r.end = w.g.clockNow()
 		w.mu.Unlock()
 	}()
@@ -369,6 +388,9 @@ func scriptArchive(name string, ver int, big bool) []byte {
 	}
 	h := baseHeader()
 	h.TileType = pmtiles.Mvt
+	// the declared tile compression differs between versions (the server only reports it): an answer must carry
+	// the Content-Encoding of the version its bytes come from
+	h.TileCompression = []pmtiles.Compression{pmtiles.Gzip, pmtiles.NoCompression, pmtiles.Brotli, pmtiles.Zstd}[ver%4]
 	h.MinZoom, h.MaxZoom = 0, 2
 	if big {
 		h.MaxZoom = 8
@@ -413,6 +435,17 @@ func answerOf(v []byte, name, path string) (int, []byte) {
 		return 200, ra.metaRaw
 	}
 	return 404, nil
+}
+
+// content headers one fixed version attaches to a stored tile
+func tileHeadersOf(v []byte) (ce, ct string) {
+	h, err := pmtiles.DeserializeHeader(v[:127])
+	if err != nil {
+		return "", ""
+	}
+	ce = map[pmtiles.Compression]string{pmtiles.Gzip: "gzip", pmtiles.Brotli: "br", pmtiles.Zstd: "zstd"}[h.TileCompression]
+	ct = map[pmtiles.TileType]string{pmtiles.Mvt: "application/x-protobuf", pmtiles.Png: "image/png", pmtiles.Jpeg: "image/jpeg", pmtiles.Webp: "image/webp", pmtiles.Avif: "image/avif"}[h.TileType]
+	return
 }
 
 func pathName(path string) string {
@@ -477,6 +510,14 @@ func runScript(cacheMB int, ops []string, gated bool) scriptResult {
 		case "R":
 			k, _ := strconv.Atoi(p[1])
 			w.g.deliver(k)
+		case "X": // X:<k>: the client of request k goes away (its context is cancelled)
+			k, _ := strconv.Atoi(p[1])
+			w.mu.Lock()
+			if k < len(w.reqs) {
+				w.reqs[k].cancelled = true
+				w.reqs[k].cancel()
+			}
+			w.mu.Unlock()
 		case "Z": // Z:<name>:<mode|ok>: every read of the archive's tile data fails this way from now on
 			w.g.mu.Lock()
 			if p[2] == "ok" {
